@@ -4,6 +4,8 @@
     elig <k> <batch plates> <unobserved plates>   -> eligible plate ids (comma separated | -) | err:ValueError
     select <k> <screen plates> <batch ids>        -> eligible plate ids computed by select_next_plate's plumbing | err:ValueError
 
+    selectraw <k> <screen plates> <batch ids as Python ints, -1 placeholders allowed>
+                                                  -> eligible plate ids of select_next_plate with the raw id list
     rounds <k> <screen plates at the start> <finished batches b1/b2/.. (ids comma separated) | -> <batch ids>
                                                   -> eligible plate ids after the finished batches were marked observed (set_observed)
 
@@ -45,6 +47,11 @@ def handle : List String → Option String
     let scr ← parsePlates? scr
     let ids ← parseNatList? ids
     some (showResult (eligibleOf k scr ids))
+  | ["selectraw", k, scr, ids] => do
+    let k ← parseNat? k
+    let scr ← parsePlates? scr
+    let ids ← parseIntList? ids
+    some (showResult (selectNext k scr ids))
   | ["rounds", k, scr, done, ids] => do
     let k ← parseNat? k
     let scr ← parsePlates? scr
